@@ -794,3 +794,163 @@ func sameBase(fn *ssa.Function, a, b ssa.Value) bool {
 	})
 	return !stored
 }
+
+// lessMethods: the Less methods of the value types (and of rel types that implement Less(Value) bool).
+func lessMethods(p *Program) []*ssa.Function {
+	var out []*ssa.Function
+	seen := map[*ssa.Function]bool{}
+	for _, T := range p.ValueTypes() {
+		if m := p.MethodOf(T, "Less"); m != nil && !seen[m] && InRepo(m) && m.Blocks != nil {
+			seen[m] = true
+			out = append(out, m)
+		}
+	}
+	return out
+}
+
+// R06g: a Less method never answers with the plain negation of another Less.  `!x.Less(y)` is x ≥ y: returned
+// from a Less it makes equal operands compare as less (irreflexivity lost, and `a < b` and `b < a` both true for
+// containers that walk components).  The reversed order of wrappers is `y.Less(x)`.  A negated Less is accepted
+// only on a path where the two operands were already found unequal.
+func ruleLessNotNegatedLess(p *Program, r *Report) {
+	r.Begin("R06g", "strictness: no Less method of a value type returns the negation of a Less call (`!x.Less(y)` is ≥, true for equal operands) unless the return is dominated by a branch that established the operands unequal (Equal / == / !=); reversal is written y.Less(x)", 15)
+	defer r.End()
+	for _, m := range lessMethods(p) {
+		fns := append([]*ssa.Function{m}, Closures(m)...)
+		r.Fn(FnName(m))
+		bad := 0
+		for _, f := range fns {
+			ForEachInstr(f, func(ins ssa.Instruction) {
+				ret, ok := ins.(*ssa.Return)
+				if !ok || len(ret.Results) != 1 {
+					return
+				}
+				neg, ok := RetVal(ret, 0).(*ssa.UnOp)
+				if !ok || neg.Op != token.NOT {
+					return
+				}
+				c, ok := neg.X.(*ssa.Call)
+				if !ok {
+					return
+				}
+				name := ""
+				if c.Call.IsInvoke() {
+					name = c.Call.Method.Name()
+				} else if g := c.Call.StaticCallee(); g != nil {
+					name = g.Name()
+				}
+				if name != "Less" {
+					return
+				}
+				// the two operands of the negated Less
+				var opA, opB ssa.Value
+				if c.Call.IsInvoke() {
+					opA = c.Call.Value
+					if len(c.Call.Args) > 0 {
+						opB = c.Call.Args[0]
+					}
+				} else if len(c.Call.Args) >= 2 {
+					opA, opB = c.Call.Args[0], c.Call.Args[1]
+				}
+				same := func(u, v ssa.Value) bool { return u != nil && v != nil && (u == v || sameValue(u, v, 0)) }
+				pair := func(u, v ssa.Value) bool { return (same(u, opA) && same(v, opB)) || (same(u, opB) && same(v, opA)) }
+				// established unequal on the way here?
+				uneq := false
+				for d := ret.Block(); d != nil; d = d.Idom() {
+					id := d.Idom()
+					if id == nil {
+						break
+					}
+					if cond := IfCond(id); cond != nil && DependsOn(cond, func(x ssa.Value) bool {
+						switch y := x.(type) {
+						case *ssa.Call:
+							if y.Call.IsInvoke() && y.Call.Method.Name() == "Equal" && len(y.Call.Args) > 0 {
+								return pair(y.Call.Value, y.Call.Args[0])
+							}
+							if g := y.Call.StaticCallee(); g != nil && g.Name() == "Equal" && len(y.Call.Args) >= 2 {
+								return pair(y.Call.Args[0], y.Call.Args[1])
+							}
+						case *ssa.BinOp:
+							return (y.Op == token.EQL || y.Op == token.NEQ) && pair(y.X, y.Y)
+						}
+						return false
+					}) {
+						uneq = true
+					}
+				}
+				if !uneq {
+					bad++
+					r.Viol(fmt.Sprintf("negated-less@%s~%d", FnName(m), bad), fmt.Sprintf("%s returns !….Less(…): for equal operands this is true, so the value is less than itself and containers holding it compare less in both directions; the reversed order is written with the operands swapped", FnName(m)), ret.Pos())
+				}
+			})
+		}
+		if bad == 0 {
+			r.OK("negated-less@"+FnName(m), "no return of a negated Less", m.Pos())
+		}
+	}
+}
+
+// R07d: nothing that decides order or text reads a hash.  Value hashes are seeded per process; a Less method, a
+// comparator or a printer that consults Hash() yields an order that is consistent within a run and different in
+// the next.
+func ruleOrderIndependentOfHash(p *Program, r *Report) {
+	r.Begin("R07d", "order and text never read a hash: no Less method of a value type, and no function of package rel it reaches through static calls, calls a Hash method or the hash package (value hashes are seeded per process: an order derived from them is total and stable within one run and different in the next)", 15)
+	defer r.End()
+	relPkg := p.Pkg("rel")
+	isHashCall := func(c ssa.CallInstruction) (string, bool) {
+		cc := c.Common()
+		if cc.IsInvoke() {
+			if cc.Method.Name() == "Hash" {
+				return "invoke " + cc.Method.Name(), true
+			}
+			return "", false
+		}
+		g := cc.StaticCallee()
+		if g == nil {
+			return "", false
+		}
+		if g.Name() == "Hash" && g.Signature.Recv() != nil {
+			return g.String(), true
+		}
+		if g.Pkg != nil && strings.HasSuffix(g.Pkg.Pkg.Path(), "arr-ai/hash") {
+			return g.String(), true
+		}
+		return "", false
+	}
+	for _, m := range lessMethods(p) {
+		r.Fn(FnName(m))
+		seen := map[*ssa.Function]bool{}
+		var hit string
+		var hitPos = m.Pos()
+		var walk func(f *ssa.Function, depth int)
+		walk = func(f *ssa.Function, depth int) {
+			if seen[f] || depth > 4 || hit != "" {
+				return
+			}
+			seen[f] = true
+			for _, g := range append([]*ssa.Function{f}, Closures(f)...) {
+				ForEachInstr(g, func(ins ssa.Instruction) {
+					c, ok := ins.(ssa.CallInstruction)
+					if !ok || hit != "" {
+						return
+					}
+					if what, is := isHashCall(c); is {
+						hit, hitPos = what+" in "+FnName(g), ins.Pos()
+						return
+					}
+					if callee := c.Common().StaticCallee(); callee != nil && callee.Pkg == relPkg && callee.Blocks != nil && callee.Name() != "Less" {
+						walk(callee, depth+1)
+					}
+				})
+			}
+		}
+		walk(m, 0)
+		r.Check(hit == "", "hash-free@"+FnName(m), "reaches no Hash call", fmt.Sprintf("%s consults a hash (%s): hashes are seeded per process, so the order of two values — and with it the printed order of every set that holds them — changes from run to run", FnName(m), hit), hitPos)
+	}
+}
+
+func init() {
+	register("C06", Rule{"R06g", ruleLessNotNegatedLess})
+	register("C07", Rule{"R07d", ruleOrderIndependentOfHash})
+	register("C06", Rule{"R07d", ruleOrderIndependentOfHash})
+}
